@@ -558,6 +558,11 @@ class Engine:
         res = []
         for s1, a1 in self.split_union(a, st):
             for s2, b1 in self.split_union(b, s1):
+                hk = self.hooks.get("binop")
+                r = hk(self, s2, op, a1, b1) if hk is not None else None
+                if r is not None:
+                    res.append((s2, r))
+                    continue
                 res.append((s2, self.builtin_mod.binop(self, s2, op, a1, b1)))
         return res
 
